@@ -5,8 +5,12 @@ C06 — collection stays in its root, honours the deny list, writes only to the 
 (A) containment  : `accept_sound`, `acceptOld_witness`, `mkFile_contained`, `factories_contained`
 (B) deny list    : `denyMatch_iff`, `deny_match_spec`, `allow_perm`, `factories_respect_deny`, `trace_no_denied`,
                    `apply_blacklist_files`
+(B') validate()  : `validate_ok_allowed`, `validate_deny_reached` (the deny check is reached on every path through the
+                   ordered checks of FileProvider / CommandOutputProvider.validate), `mkFile_checks`, `mkCmd_checks`
+(B'') fail-closed: `apply_blacklist_seq_complete`, `apply_blacklist_seq_abort_iff`, `apply_blacklist_seq_wellformed`,
+                   `collect_fail_closed`, `collect_abort_runs_nothing`, `collect_honours_user_entries` (end to end)
 (C) persistence  : `dst_confined_partial`, `DstConfined` (full statement, FALSE of the code) + `dst_witness`,
-                   `file_rel_relative`, `mangle_single_component`, `hydration_paths_confined`
+                   `file_rel_relative`, `cmd_rel_relative`, `mangle_single_component`, `hydration_paths_confined`
 All statements are over the model `IV.Paths` for every file-system answer `Fs`, every deny list,
 every factory and every string.
 -/
@@ -431,6 +435,60 @@ theorem mangle_single_component (isWord : Char → Bool) (cmd : Str) :
 
 example : mangle isWordAscii "/bin/cat /etc/../x y  z".toList = "cat_.etc....x_y_z".toList := by decide
 
+/-- The relative path a COMMAND serializer records never begins with '/', for every command line, every `\w` class and
+every `save_as` as the factories normalise it (`strip("/")`): `os.path.join(root, rel)` never discards the output root. -/
+theorem cmd_rel_relative (isWord : Char → Bool) (cmd : Str) (saveRaw : Option Str) :
+    startsWith (serRel .command (mangle isWord cmd) (saveAsCmd saveRaw)) ['/'] = false := by
+  have hic : ("insights_commands".toList : Str) ≠ [] := by decide
+  have hir : startsWith "insights_commands".toList ['/'] = false := by decide
+  have hm : startsWith (mangle isWord cmd) ['/'] = false := by
+    have := (mangle_single_component isWord cmd).1
+    cases hmm : mangle isWord cmd with
+    | nil => simp [startsWith, List.isPrefixOf]
+    | cons c t =>
+      rw [hmm] at this
+      have : c ≠ '/' := by intro e; subst e; simp at this
+      simp [startsWith, List.isPrefixOf, Ne.symm this]
+  unfold serRel
+  simp only []
+  split
+  · exact join_rel _ _ hic hir hm
+  · rename_i s hs
+    obtain ⟨h1, hne⟩ := (truthy_some _ _).mp hs
+    unfold saveAsCmd at h1
+    obtain ⟨raw, _, hraw⟩ := Option.map_eq_some_iff.mp h1
+    have hrel : startsWith s ['/'] = false := by
+      rw [← hraw]; unfold stripSep; exact rstripSep_rel _ (lstripSep_rel raw)
+    have hpre : startsWith (join "insights_commands".toList s) ['/'] = false := join_rel _ _ hic hir hrel
+    split
+    · have hne' : join "insights_commands".toList s ≠ [] := by
+        unfold join
+        rw [if_neg (by simp [hrel])]
+        split <;> simp
+      refine join_rel _ _ hne' hpre ?_
+      -- the basename of a mangled name (no '/') is the name itself or empty: in any case it has no leading '/'
+      have hb : ∀ w ∈ splitSep (mangle isWord cmd), startsWith w ['/'] = false := by
+        intro w hw
+        have : ∀ (s : Str), '/' ∉ s → splitSep s = [s] := by
+          intro s
+          induction s with
+          | nil => intro _; rfl
+          | cons d ds ih =>
+            intro hd
+            have hd1 : d ≠ '/' := by intro e; subst e; simp at hd
+            have hd2 : '/' ∉ ds := by intro e; exact hd (List.mem_cons_of_mem _ e)
+            unfold splitSep
+            rw [if_neg hd1, ih hd2]
+        rw [this _ (mangle_single_component isWord cmd).1] at hw
+        simp at hw; subst hw; exact hm
+      unfold basename
+      cases hg : (splitSep (mangle isWord cmd)).getLast? with
+      | none => rfl
+      | some x => exact hb x (List.mem_of_getLast? hg)
+    · exact hpre
+
+example : serRel .command (mangle isWordAscii "/bin/ls -l /".toList) (saveAsCmd (some "//d/".toList)) = "insights_commands/d".toList := by decide
+
 /-- Hydration's own paths: `data_root` and the metadata file of a component lie beneath the root it was given,
 for every root string and every component name without '/' and not a dot name -/
 theorem hydration_paths_confined (root name : Str) (hn : '/' ∉ name) :
@@ -471,5 +529,248 @@ theorem hydration_paths_confined (root name : Str) (hn : '/' ∉ name) :
 
 example : norm (metaPath "/out".toList "a.b".toList) = ["out".toList, "meta_data".toList, "a.b.json".toList] := by decide
 example : allow ["a".toList, "b".toList] "b c".toList = allow ["b".toList, "a".toList] "b c".toList := by decide
+
+/-! ## (B') the deny check is reached on every path through validate() -/
+
+/-- Whatever `filterable` / `hasFilters` / containment / readability are: when validate() of a file or of a command
+provider returns normally under a host context, the deny list allowed the candidate. -/
+theorem validate_ok_allowed (i : VIn) (cs : List VCheck) (hcs : cs = fileChecks ∨ cs = cmdChecks)
+    (hh : i.host = true) (hok : runChecks i cs = .ok ()) : i.allowed = true := by
+  rcases hcs with rfl | rfl <;>
+  · simp only [fileChecks, cmdChecks, runChecks, VCheck.fails, hh] at hok
+    cases hf : i.found <;> cases hfl : i.filterable <;> cases hx : i.hasFilters <;> cases ha : i.allowed <;>
+      simp [hf, hfl, hx, ha] at hok ⊢
+
+example : runChecks { found := true, host := true, filterable := true, hasFilters := true, allowed := true } fileChecks = .ok () := by
+  rfl
+
+/-- The deny check is REACHED whenever the earlier checks pass: the target exists and the "filterable without
+filters" guard does not fire — in particular for `filterable = true` with filters registered, and for
+`filterable = false` with or without filters — a denied candidate ends validate() with BlacklistedSpec, before
+containment / readability are looked at and before anything is opened or executed. -/
+theorem validate_deny_reached (i : VIn) (cs : List VCheck) (hcs : cs = fileChecks ∨ cs = cmdChecks)
+    (hh : i.host = true) (hf : i.found = true) (hg : (i.filterable && !i.hasFilters) = false)
+    (hd : i.allowed = false) : runChecks i cs = .error .blacklisted := by
+  rcases hcs with rfl | rfl <;>
+    simp [fileChecks, cmdChecks, runChecks, VCheck.fails, hh, hf, hg, hd]
+
+example : runChecks { found := true, host := true, filterable := true, hasFilters := true, allowed := false,
+                      contained := false, readable := false } fileChecks = .error .blacklisted := by rfl
+example : runChecks { found := true, host := true, filterable := false, hasFilters := true, allowed := false } cmdChecks
+    = .error .blacklisted := by rfl
+
+/-- `mkFile` (the constructor used by every file factory) IS this sequence of checks, for every split of its
+`noFilters` flag into `filterable` and `hasFilters`. -/
+theorem mkFile_checks (fs : Fs) (ctx : Ctx) (sp : Spec) (filterable hasFilters : Bool) (arg : Str) :
+    mkFile fs ctx { sp with noFilters := filterable && !hasFilters } arg =
+      match runChecks (fileVIn fs ctx filterable hasFilters arg) fileChecks with
+      | .ok _ => .ok { kind := .file, root := ctx.root, rel := lstripSep arg, cmd := [], saveAs := sp.saveAs }
+      | .error e => .error e := by
+  simp only [mkFile, fileVIn, fileChecks, runChecks, VCheck.fails]
+  cases fs.exists_ (join ctx.root (lstripSep arg)) <;> cases ctx.host <;> cases filterable <;> cases hasFilters <;>
+    cases allow ctx.denyFiles ('/' :: lstripSep arg) <;>
+    cases accept (fs.realpath ctx.root) (fs.realpath (join ctx.root (lstripSep arg))) <;>
+    cases fs.readable (join ctx.root (lstripSep arg)) <;> rfl
+
+example :
+    let fs : Fs := { exists_ := fun _ => true, realpath := id, readable := fun _ => true, isDir := fun _ => false,
+                     glob := fun _ => [], cmdOk := fun _ => some true }
+    (mkFile fs ⟨true, "/r".toList, ["/a".toList], []⟩ { noFilters := true && !true } "/a".toList).toOption.isSome = false := by
+  rfl
+
+/-- the command constructor is the three-check sequence (once the command line parses and its relative path exists) -/
+theorem mkCmd_checks (isWord : Char → Bool) (fs : Fs) (ctx : Ctx) (sp : Spec) (filterable hasFilters : Bool)
+    (cmd : Str) (b : Bool) (hb : fs.cmdOk cmd = some b) (p : Prov)
+    (h : mkCmd isWord fs ctx { sp with noFilters := filterable && !hasFilters } .command cmd = .ok p) :
+    runChecks { found := b, host := ctx.host, filterable := filterable, hasFilters := hasFilters,
+                allowed := allow ctx.denyCmds cmd } cmdChecks = .ok () := by
+  simp only [mkCmd, hb] at h
+  simp only [cmdChecks, runChecks, VCheck.fails]
+  cases b <;> cases hh : ctx.host <;> cases filterable <;> cases hasFilters <;> cases ha : allow ctx.denyCmds cmd <;>
+    simp [hh, ha] at h ⊢
+
+example :
+    let fs : Fs := { exists_ := fun _ => true, realpath := id, readable := fun _ => true, isDir := fun _ => false,
+                     glob := fun _ => [], cmdOk := fun _ => some true }
+    (mkCmd isWordAscii fs ⟨true, [], [], []⟩ { noFilters := true && !true } .command "/bin/ls".toList).toOption.isSome = true := by
+  rfl
+
+/-! ## (B'') apply_blacklist / collect() are fail-closed on a malformed deny list -/
+
+/-- After a SUCCESSFUL application every string entry the user wrote is in force: a files / commands entry is in
+its deny set or has disabled the spec it names, a components entry that names a loaded component has disabled it. -/
+theorem apply_blacklist_seq_complete (isSpec isComp : Str → Bool) (files commands components : Sect) (d : Deny)
+    (fi ci co : List Item) (hfi : files.items = some fi) (hci : commands.items = some ci)
+    (hco : components.items = some co)
+    (h : applyBlacklistSeq isSpec isComp files commands components = .ok d) :
+    (∀ s, Item.str s ∈ fi → d.has false s) ∧ (∀ s, Item.str s ∈ ci → d.has true s) ∧
+    (∀ s, Item.str s ∈ co → isComp s = true → s ∈ d.disabled) := by
+  simp only [applyBlacklistSeq, hfi, hci, hco] at h
+  split at h
+  · cases h
+  · rename_i d1 h1
+    split at h
+    · cases h
+    · rename_i d2 h2
+      cases h
+      obtain ⟨_, a2, _⟩ := blLoop_ok isSpec false fi _ d1 h1
+      obtain ⟨b1, b2, _⟩ := blLoop_ok isSpec true ci d1 d2 h2
+      have c1 := blComps_le isComp co d2
+      refine ⟨?_, ?_, ?_⟩
+      · intro s hs; exact Deny.has_mono (Deny.le_trans b1 c1) (a2 s hs)
+      · intro s hs; exact Deny.has_mono c1 (b2 s hs)
+      · intro s hs hc; exact blComps_has isComp co d2 s hs hc
+
+example : applyBlacklistSeq (fun s => s == "hostname".toList) (fun _ => false)
+    (.list [.str "/etc/passwd".toList, .str "hostname".toList]) (.str "ab".toList) .absent
+    = .ok { files := ["/etc/passwd".toList], commands := ["a".toList, "b".toList], disabled := [blPre ++ "hostname".toList] } := by
+  rfl
+
+/-- The application aborts exactly when a section is not iterable or the files / commands section holds a
+non-string item — wherever in the list it stands, whatever valid entries precede or follow it. -/
+theorem apply_blacklist_seq_abort_iff (isSpec isComp : Str → Bool) (files commands components : Sect) :
+    applyBlacklistSeq isSpec isComp files commands components = .error () ↔
+      (files.items = none ∨ commands.items = none ∨ components.items = none ∨
+       (∃ fi, files.items = some fi ∧ Item.other ∈ fi) ∨ (∃ ci, commands.items = some ci ∧ Item.other ∈ ci)) := by
+  unfold applyBlacklistSeq
+  cases hf : files.items with
+  | none => simp
+  | some fi =>
+    cases h1 : blLoop isSpec false fi {} with
+    | error e =>
+      have := (blLoop_error_iff isSpec false fi {}).mp (by rw [h1])
+      simp [h1, this]
+    | ok d1 =>
+      have n1 : Item.other ∉ fi := (blLoop_ok isSpec false fi _ d1 h1).2.2
+      cases hc : commands.items with
+      | none => simp [h1]
+      | some ci =>
+        cases h2 : blLoop isSpec true ci d1 with
+        | error e =>
+          have := (blLoop_error_iff isSpec true ci d1).mp (by rw [h2])
+          simp [h1, h2, this]
+        | ok d2 =>
+          have n2 : Item.other ∉ ci := (blLoop_ok isSpec true ci _ d2 h2).2.2
+          cases ho : components.items <;> simp [h1, h2, n1, n2]
+
+example : applyBlacklistSeq (fun _ => false) (fun _ => false)
+    (.list [.str "/etc/a".toList, .other, .str "/etc/b".toList]) .absent .absent = .error () := by rfl
+example : applyBlacklistSeq (fun _ => false) (fun _ => false) .absent .noniter .absent = .error () := by rfl
+
+/-- On a well-formed deny list (three lists of strings) the sequential application is the fold `applyBlacklist`
+that the correspondence streams of the earlier rounds compare with the code. -/
+theorem apply_blacklist_seq_wellformed (isSpec isComp : Str → Bool) (files commands components : List Str) :
+    applyBlacklistSeq isSpec isComp (.list (files.map Item.str)) (.list (commands.map Item.str))
+        (.list (components.map Item.str)) = .ok (applyBlacklist isSpec isComp files commands components) := by
+  simp only [applyBlacklistSeq, Sect.items, blLoop_strs, blComps_strs, applyBlacklist]
+  congr 2
+
+example : applyBlacklistSeq (fun s => s == "date".toList) (fun _ => true) (.list [.str "date".toList]) (.list []) (.list [.str "x.y".toList])
+    = .ok (applyBlacklist (fun s => s == "date".toList) (fun _ => true) ["date".toList] [] ["x.y".toList]) := by rfl
+
+/-- collect() is fail-closed: every event of a collection run happened under a deny state in which ALL string
+entries of the user's deny list are in force; an aborted application leaves no datasource run. -/
+theorem collect_fail_closed {ε : Type} (isSpec isComp : Str → Bool) (files commands components : Sect)
+    (run : Deny → List ε) (ev : ε) (hev : ev ∈ collectRun isSpec isComp files commands components run) :
+    ∃ d fi ci co, files.items = some fi ∧ commands.items = some ci ∧ components.items = some co ∧
+      ev ∈ run d ∧ (∀ s, Item.str s ∈ fi → d.has false s) ∧ (∀ s, Item.str s ∈ ci → d.has true s) ∧
+      (∀ s, Item.str s ∈ co → isComp s = true → s ∈ d.disabled) := by
+  unfold collectRun at hev
+  split at hev
+  · simp at hev
+  · rename_i d hd
+    cases hf : files.items with
+    | none => simp [applyBlacklistSeq, hf] at hd
+    | some fi =>
+      cases hc : commands.items with
+      | none =>
+        simp only [applyBlacklistSeq, hf, hc] at hd
+        split at hd <;> cases hd
+      | some ci =>
+        cases ho : components.items with
+        | none =>
+          simp only [applyBlacklistSeq, hf, hc, ho] at hd
+          split at hd
+          · cases hd
+          · split at hd <;> cases hd
+        | some co =>
+          obtain ⟨a, b, c⟩ := apply_blacklist_seq_complete isSpec isComp files commands components d fi ci co hf hc ho hd
+          exact ⟨d, fi, ci, co, rfl, rfl, rfl, hev, a, b, c⟩
+
+theorem collect_abort_runs_nothing {ε : Type} (isSpec isComp : Str → Bool) (files commands components : Sect)
+    (run : Deny → List ε) (h : applyBlacklistSeq isSpec isComp files commands components = .error ()) :
+    collectRun isSpec isComp files commands components run = [] := by
+  unfold collectRun; rw [h]
+
+example : collectRun (fun _ => false) (fun _ => false) (.list [.other, .str "/etc/b".toList]) .absent .absent
+    (fun _ => ["datasource ran"]) = [] := by rfl
+example : collectRun (fun _ => false) (fun _ => false) (.list [.str "/etc/b".toList]) .absent .absent
+    (fun d => d.files) = ["/etc/b".toList] := by rfl
+
+/-- END TO END, for every deny list as the user wrote it (malformed or not), every datasource factory and every file
+system: an event of a host collection — a file opened, a command executed — is never matched by ANY string entry of
+the user's files (for opens) / commands (for executions) section that is not a spec's symbolic name.  (Entries that
+are symbolic names disable the component instead: `apply_blacklist_seq_complete`.) -/
+theorem collect_honours_user_entries (isWord : Char → Bool) (fs : Fs) (root : Str) (sp : Spec) (f : Factory)
+    (isSpec isComp : Str → Bool) (files commands components : Sect) (ev : Ev)
+    (hev : ev ∈ collectRun isSpec isComp files commands components
+            (fun d => f.trace isWord fs ⟨true, root, d.files, d.commands⟩ sp)) :
+    ∃ fi ci, files.items = some fi ∧ commands.items = some ci ∧
+      match ev with
+      | .open_ _ rel => ∀ s, Item.str s ∈ fi → isSpec s = false → denyMatch s ('/' :: rel) = false
+      | .exec cmd => ∀ s, Item.str s ∈ ci → isSpec s = false → denyMatch s cmd = false := by
+  unfold collectRun at hev
+  split at hev
+  · simp at hev
+  · rename_i d hd
+    have hnd := trace_no_denied isWord fs ⟨true, root, d.files, d.commands⟩ sp f rfl ev hev
+    unfold applyBlacklistSeq at hd
+    cases hf : files.items with
+    | none => simp [hf] at hd
+    | some fi =>
+      simp only [hf] at hd
+      cases h1 : blLoop isSpec false fi {} with
+      | error e => simp [h1] at hd
+      | ok d1 =>
+        simp only [h1] at hd
+        cases hc : commands.items with
+        | none => simp [hc] at hd
+        | some ci =>
+          simp only [hc] at hd
+          cases h2 : blLoop isSpec true ci d1 with
+          | error e => simp [h2] at hd
+          | ok d2 =>
+            simp only [h2] at hd
+            cases ho : components.items with
+            | none => simp [ho] at hd
+            | some co =>
+              simp only [ho] at hd
+              cases hd
+              have le2 := (blLoop_ok isSpec true ci d1 d2 h2).1
+              have le3 := blComps_le isComp co d2
+              refine ⟨fi, ci, rfl, rfl, ?_⟩
+              cases ev with
+              | open_ r rel =>
+                intro s hs hn
+                have m1 : s ∈ d1.files := blLoop_ok_lit isSpec false fi _ d1 h1 s hs hn
+                have m3 : s ∈ (blComps isComp co d2).files := le3.1 _ (le2.1 _ m1)
+                simp only [Ev.denied, allow, Bool.not_not, List.any_eq_false] at hnd
+                have := hnd s m3
+                simpa using this
+              | exec cmd =>
+                intro s hs hn
+                have m2 : s ∈ d2.commands := blLoop_ok_lit isSpec true ci d1 d2 h2 s hs hn
+                have m3 : s ∈ (blComps isComp co d2).commands := le3.2.1 _ m2
+                simp only [Ev.denied, allow, Bool.not_not, List.any_eq_false] at hnd
+                have := hnd s m3
+                simpa using this
+
+/-- a run in which the second of three globbed files is denied by the entry that FOLLOWS a spec name in the user's list -/
+example :
+    let fs : Fs := { exists_ := fun _ => true, realpath := id, readable := fun _ => true, isDir := fun _ => false,
+                     glob := fun _ => ["/r/a".toList, "/r/b".toList, "/r/c".toList], cmdOk := fun _ => some true }
+    collectRun (fun s => s == "hostname".toList) (fun _ => false) (.list [.str "hostname".toList, .str "/b".toList]) .absent .absent
+      (fun d => (Factory.globFile ["/*".toList]).trace isWordAscii fs ⟨true, "/r".toList, d.files, d.commands⟩ {}) =
+      [.open_ "/r".toList "a".toList, .open_ "/r".toList "c".toList] := by decide
 
 end IV.Paths
